@@ -8,4 +8,10 @@ void *memset(void *, int, size_t);
 int memcmp(void const *, void const *, size_t);
 size_t strlen(char const *);
 int strcmp(char const *, char const *);
+void *memchr(void const *, int, size_t);
+void *memrchr(void const *, int, size_t);
+int strncmp(char const *, char const *, size_t);
+size_t strnlen(char const *, size_t);
+char *strchr(char const *, int);
+char *strcpy(char *, char const *);
 #endif
